@@ -1,8 +1,1156 @@
-//! C11 - not built yet
-use vlib::report::{Ctx, Outcome};
+//! C11 - identifiers: increasing delivery-ids, unique handles/channels, correct routing.
+//!
+//! Part A: exhaustive search over histories of begin/end, attach/detach/close/drop, send (1 frame,
+//! transport-split, link-split) and peer transfers, executed on the real client stack (Connection, up to
+//! 2 Sessions, up to 3 links per session) against the scripted peer.  The PEER's channel and handle
+//! numbers are deliberately different from the library's (channel + 1000, handle + 70000; delivery-ids
+//! from 5000) so that any mix-up between local and remote identifiers shows.
+//! Part B (`c11_listener.rs`): scripted client against the real listener, where the peer picks sparse,
+//! large and reused channel and handle numbers.
+//!
+//! Oracle (the statement's words, nothing stricter), all judged on what the scripted peer reads:
+//!  * delivery-ids of a session strictly increase in send order in serial-number arithmetic and are never
+//!    reused; all frames of one delivery (a run of transfers on one link up to the frame with more=false)
+//!    carry the same delivery-id or none;
+//!  * no two attached links of a session share a handle, no two begun sessions share a channel, a link name
+//!    is attached at most once per session at a time, a handle/channel is reused only after the previous
+//!    holder's detach/end.  PERMISSIVE READING: "detached"/"ended" = the library's own detach/end frame
+//!    for that holder has been written (the peer's answer is not waited for);
+//!  * every message the peer sends to (its) handle h on (its) channel c is returned by `recv()` of the
+//!    Receiver that was attached with that handle, exactly once, and by no other Receiver.
+#[path = "c11_listener.rs"]
+mod listener;
 
-pub fn run(_ctx: &Ctx) -> Outcome {
+use fe2o3_amqp::connection::ConnectionHandle;
+use fe2o3_amqp::session::SessionHandle;
+use fe2o3_amqp::{Connection, Receiver, Sender, Session};
+use fe2o3_amqp_types::definitions::Handle;
+use fe2o3_amqp_types::performatives::*;
+use serde_json::json;
+use std::collections::{BTreeMap, BTreeSet, HashSet};
+use std::sync::{Arc, Mutex, OnceLock};
+use std::time::{Duration, Instant};
+use vlib::history::{search, HistOut};
+use vlib::peer::{drive, settle, Auto, Body, Dirn, Peer, WFrame};
+use vlib::report::{Ctx, Outcome};
+use vlib::runner::{run_exec, RunCfg, Scenario};
+use vlib::util::h64;
+use vlib::vpipe::Pipe;
+
+pub const CH_OFF: u16 = 1000;
+pub const H_OFF: u32 = 70_000;
+pub const MAX_FRAME: u32 = 512;
+const MAX_SESS: usize = 2;
+const MAX_LINKS: usize = 3;
+
+// ------------------------------------------------------------------------------------------- alphabet
+
+#[derive(Debug, Clone, Copy, PartialEq, Eq, Hash)]
+pub enum Msg {
+    /// fits one frame
+    One,
+    /// body > max-frame-size: the transport splits (on a link with max-message-size the link splits first)
+    Transport,
+    /// body > the link's max-message-size: the link layer splits (only enabled on links that have one)
+    Link,
+}
+
+#[derive(Debug, Clone, Copy, PartialEq, Eq, Hash)]
+pub enum Ev {
+    Begin,
+    End(u8),
+    /// attach on session slot s: sender?/receiver, name 0 = "a", 2 = "c" (no max-message-size), 1 = "b" (max-message-size)
+    Attach { s: u8, sender: bool, name: u8 },
+    Detach(u8, u8),
+    Close(u8, u8),
+    Drop(u8, u8),
+    Send(u8, u8, Msg),
+    PeerXfer(u8, u8),
+}
+
+pub fn alphabet() -> &'static Vec<Ev> {
+    static A: OnceLock<Vec<Ev>> = OnceLock::new();
+    A.get_or_init(|| {
+        let mut v = vec![Ev::Begin];
+        for s in 0..MAX_SESS as u8 {
+            v.push(Ev::End(s));
+        }
+        for s in 0..MAX_SESS as u8 {
+            for sender in [true, false] {
+                for name in 0..3u8 {
+                    v.push(Ev::Attach { s, sender, name });
+                }
+            }
+        }
+        for s in 0..MAX_SESS as u8 {
+            for l in 0..MAX_LINKS as u8 {
+                v.push(Ev::Detach(s, l));
+                v.push(Ev::Close(s, l));
+                v.push(Ev::Drop(s, l));
+                v.push(Ev::Send(s, l, Msg::One));
+                v.push(Ev::Send(s, l, Msg::Transport));
+                v.push(Ev::Send(s, l, Msg::Link));
+                v.push(Ev::PeerXfer(s, l));
+            }
+        }
+        v
+    })
+}
+
+#[derive(Debug, Clone, Copy, PartialEq, Eq, Hash)]
+pub struct Cfg {
+    pub id: &'static str,
+    /// next-outgoing-id every session starts with
+    pub noi: u32,
+    /// max-message-size of links named "b" (links named "a" have none)
+    pub mms_b: u64,
+}
+pub const CFGS: [Cfg; 3] = [
+    // link-split pieces fit a frame: pure link-level splitting on 'b' links, pure transport splitting on 'a'/'c'
+    Cfg { id: "plain", noi: 0, mms_b: 200 },
+    // link-split pieces are themselves larger than a frame: both layers split one delivery
+    Cfg { id: "bigmms", noi: 0, mms_b: 600 },
+    // delivery-ids start just below the wrap-around
+    Cfg { id: "wrap", noi: u32::MAX - 1, mms_b: 200 },
+];
+
+fn link_name(n: u8) -> &'static str {
+    match n {
+        0 => "a",
+        1 => "b",
+        _ => "c",
+    }
+}
+
+// ------------------------------------------------------------------------------ model of the harness state
+// Which handles the HARNESS holds (not what the library does): decides which events are enabled.
+
+#[derive(Debug, Clone, Copy, PartialEq, Eq, Hash)]
+pub struct MLink {
+    pub name: u8,
+    pub sender: bool,
+}
+#[derive(Debug, Clone, Default, PartialEq, Eq, Hash)]
+pub struct MSess {
+    pub links: [Option<MLink>; MAX_LINKS],
+}
+#[derive(Debug, Clone, Default, PartialEq, Eq, Hash)]
+pub struct Model {
+    pub sess: [Option<MSess>; MAX_SESS],
+}
+
+impl Model {
+    pub fn initial() -> Model {
+        let mut m = Model::default();
+        m.sess[0] = Some(MSess::default());
+        m
+    }
+    fn link(&self, s: u8, l: u8) -> Option<MLink> {
+        self.sess.get(s as usize)?.as_ref()?.links.get(l as usize).copied().flatten()
+    }
+    pub fn enabled(&self, ev: Ev) -> bool {
+        match ev {
+            Ev::Begin => self.sess.iter().any(|s| s.is_none()),
+            Ev::End(s) => self.sess[s as usize].is_some(),
+            Ev::Attach { s, .. } => self.sess[s as usize].as_ref().is_some_and(|x| x.links.iter().any(|l| l.is_none())),
+            Ev::Detach(s, l) | Ev::Close(s, l) | Ev::Drop(s, l) => self.link(s, l).is_some(),
+            Ev::Send(s, l, m) => self.link(s, l).is_some_and(|k| k.sender && (m != Msg::Link || k.name == 1)),
+            Ev::PeerXfer(s, l) => self.link(s, l).is_some_and(|k| !k.sender),
+        }
+    }
+    /// is this attach a duplicate of a name the session has attached (must be refused locally)?
+    pub fn is_dup(&self, ev: Ev) -> bool {
+        match ev {
+            Ev::Attach { s, name, .. } => self.sess[s as usize].as_ref().is_some_and(|x| x.links.iter().flatten().any(|l| l.name == name)),
+            _ => false,
+        }
+    }
+    /// apply the event assuming the library behaves (duplicate attach refused, everything else succeeds);
+    /// returns the slot a begin / attach goes to
+    pub fn apply(&mut self, ev: Ev) -> Option<usize> {
+        match ev {
+            Ev::Begin => {
+                let i = self.sess.iter().position(|s| s.is_none())?;
+                self.sess[i] = Some(MSess::default());
+                Some(i)
+            }
+            Ev::End(s) => {
+                self.sess[s as usize] = None;
+                None
+            }
+            Ev::Attach { s, sender, name } => {
+                if self.is_dup(ev) {
+                    return None;
+                }
+                let x = self.sess[s as usize].as_mut()?;
+                let i = x.links.iter().position(|l| l.is_none())?;
+                x.links[i] = Some(MLink { name, sender });
+                Some(i)
+            }
+            Ev::Detach(s, l) | Ev::Close(s, l) | Ev::Drop(s, l) => {
+                if let Some(x) = self.sess[s as usize].as_mut() {
+                    x.links[l as usize] = None;
+                }
+                None
+            }
+            Ev::Send(..) | Ev::PeerXfer(..) => None,
+        }
+    }
+}
+
+/// index of the first event that is not enabled (pure: no execution needed)
+pub fn first_disabled(evs: &[Ev]) -> Option<usize> {
+    let mut m = Model::initial();
+    for (i, e) in evs.iter().enumerate() {
+        if !m.enabled(*e) {
+            return Some(i);
+        }
+        m.apply(*e);
+    }
+    None
+}
+
+// ------------------------------------------------------------------------------------------ wire monitor
+
+#[derive(Debug, Clone, Default, PartialEq, Eq, Hash)]
+pub struct Counters {
+    pub deliveries: u64,
+    pub multi_frame_deliveries: u64,
+    pub link_split_deliveries: u64,
+    pub transport_split_deliveries: u64,
+    pub id_wraps: u64,
+    pub handle_reuses: u64,
+    pub channel_reuses: u64,
+    pub name_reuses: u64,
+    pub dup_attach_refused: u64,
+    pub peer_msgs_routed: u64,
+    pub max_links_attached: u64,
+    pub two_sessions: u64,
+    pub attaches: u64,
+    pub begins: u64,
+}
+impl Counters {
+    pub fn add(&mut self, o: &Counters) {
+        self.deliveries += o.deliveries;
+        self.multi_frame_deliveries += o.multi_frame_deliveries;
+        self.link_split_deliveries += o.link_split_deliveries;
+        self.transport_split_deliveries += o.transport_split_deliveries;
+        self.id_wraps += o.id_wraps;
+        self.handle_reuses += o.handle_reuses;
+        self.channel_reuses += o.channel_reuses;
+        self.name_reuses += o.name_reuses;
+        self.dup_attach_refused += o.dup_attach_refused;
+        self.peer_msgs_routed += o.peer_msgs_routed;
+        self.max_links_attached = self.max_links_attached.max(o.max_links_attached);
+        self.two_sessions += o.two_sessions;
+        self.attaches += o.attaches;
+        self.begins += o.begins;
+    }
+    pub fn to_json(&self) -> serde_json::Value {
+        json!({
+            "deliveries_on_wire": self.deliveries, "multi_frame_deliveries": self.multi_frame_deliveries,
+            "link_split_deliveries": self.link_split_deliveries, "transport_split_deliveries": self.transport_split_deliveries,
+            "delivery_id_wraparounds": self.id_wraps, "handle_reuses": self.handle_reuses, "channel_reuses": self.channel_reuses,
+            "name_reuses_after_detach": self.name_reuses, "duplicate_attaches_refused": self.dup_attach_refused,
+            "peer_messages_routed": self.peer_msgs_routed, "max_links_attached_at_once": self.max_links_attached,
+            "histories_with_two_sessions_at_once": self.two_sessions, "attach_frames": self.attaches, "begin_frames": self.begins,
+        })
+    }
+}
+
+/// a > b in RFC 1982 serial-number arithmetic
+pub fn serial_gt(a: u32, b: u32) -> bool {
+    a != b && (a.wrapping_sub(b) as i32) > 0
+}
+
+#[derive(Debug, Clone, PartialEq, Eq, Hash)]
+struct LinkMon {
+    name: String,
+}
+#[derive(Debug, Clone, Default, PartialEq, Eq, Hash)]
+struct Run {
+    first_id: Option<u32>,
+    first_tag: Option<Vec<u8>>,
+    frames: usize,
+}
+#[derive(Debug, Clone, Default, PartialEq, Eq, Hash)]
+struct ChanMon {
+    links: BTreeMap<u32, LinkMon>,
+    runs: BTreeMap<u32, Run>,
+    last_id: Option<u32>,
+    seen: BTreeSet<u32>,
+    released_handles: BTreeSet<u32>,
+    released_names: BTreeSet<String>,
+}
+
+/// Safety monitor over the frames the LIBRARY wrote (what a peer can see), fed in wire order.
+#[derive(Debug, Clone, Default)]
+pub struct WireMon {
+    chans: BTreeMap<u16, ChanMon>,
+    released_chans: BTreeSet<u16>,
+    pub fails: Vec<(String, String)>,
+    pub counters: Counters,
+    /// what the harness is doing right now (goes into signatures of delivery-id failures)
+    pub ctx: String,
+    fed: usize,
+}
+
+impl WireMon {
+    pub fn feed_all(&mut self, trace: &[WFrame]) {
+        while self.fed < trace.len() {
+            let w = &trace[self.fed];
+            self.fed += 1;
+            if w.dir == Dirn::FromLib {
+                self.feed(w);
+            }
+        }
+    }
+    fn fail(&mut self, sig: impl Into<String>, detail: String) {
+        self.fails.push((sig.into(), detail));
+    }
+    pub fn key(&self) -> u64 {
+        h64(&(&self.chans, self.fails.iter().map(|f| &f.0).collect::<BTreeSet<_>>()))
+    }
+    /// The scripted peer only ever names channels it has mapped and handles it has attached.  If the library
+    /// nevertheless closes / ends / detaches with "no such identifier", an incoming frame did not reach the
+    /// session or link its channel or handle designates.
+    fn check_unknown_identifier(&mut self, w: &WFrame, err: &Option<fe2o3_amqp_types::definitions::Error>) {
+        let Some(e) = err else { return };
+        let c = format!("{:?}", e.condition);
+        for (pat, name) in [("NotFound", "not-found"), ("UnattachedHandle", "unattached-handle"), ("HandleInUse", "handle-in-use"), ("ErrantLink", "errant-link")] {
+            if c.contains(pat) {
+                self.fail(
+                    format!("library-reports-unknown-identifier [{name}]"),
+                    format!("frame #{}: the peer only used channels it had begun and handles it had attached, but the library reports {c} ({:?}): {}", w.seq, e.description, w.short()),
+                );
+            }
+        }
+    }
+    fn feed(&mut self, w: &WFrame) {
+        let ch = w.channel;
+        let Body::Perf(p) = &w.body else { return };
+        match p {
+            Performative::Close(x) => self.check_unknown_identifier(w, &x.error),
+            Performative::End(x) => self.check_unknown_identifier(w, &x.error),
+            Performative::Detach(x) => self.check_unknown_identifier(w, &x.error),
+            _ => {}
+        }
+        match p {
+            Performative::Begin(_) => {
+                self.counters.begins += 1;
+                if self.chans.contains_key(&ch) {
+                    // the previous holder of this channel has not sent its end
+                    self.fail("channel-shared", format!("frame #{}: begin on channel {ch} while the session that holds channel {ch} has not ended ({})", w.seq, w.short()));
+                }
+                if self.released_chans.remove(&ch) {
+                    self.counters.channel_reuses += 1;
+                }
+                self.chans.insert(ch, ChanMon::default());
+                if self.chans.len() >= 2 {
+                    self.counters.two_sessions += 1;
+                }
+            }
+            Performative::End(_) => {
+                if self.chans.remove(&ch).is_some() {
+                    self.released_chans.insert(ch);
+                }
+            }
+            Performative::Close(_) => {
+                self.chans.clear();
+            }
+            Performative::Attach(a) => {
+                self.counters.attaches += 1;
+                let short = w.short();
+                let Some(c) = self.chans.get_mut(&ch) else { return };
+                let mut f = vec![];
+                if let Some(holder) = c.links.get(&a.handle.0) {
+                    f.push(("handle-shared", format!("frame #{}: attach of link '{}' with handle {} on channel {ch} while link '{}' is attached with that handle ({short})", w.seq, a.name, a.handle.0, holder.name)));
+                }
+                if let Some((h, _)) = c.links.iter().find(|(h, l)| l.name == a.name && **h != a.handle.0) {
+                    f.push(("name-attached-twice", format!("frame #{}: attach of link name '{}' (handle {}) on channel {ch} while a link of that name is attached with handle {h} ({short})", w.seq, a.name, a.handle.0)));
+                } else if c.links.get(&a.handle.0).is_some_and(|l| l.name == a.name) {
+                    f.push(("name-attached-twice", format!("frame #{}: second attach of link name '{}' with handle {} on channel {ch} without a detach in between ({short})", w.seq, a.name, a.handle.0)));
+                }
+                if c.released_handles.remove(&a.handle.0) {
+                    self.counters.handle_reuses += 1;
+                }
+                if c.released_names.remove(&a.name) {
+                    self.counters.name_reuses += 1;
+                }
+                c.links.insert(a.handle.0, LinkMon { name: a.name.clone() });
+                self.counters.max_links_attached = self.counters.max_links_attached.max(c.links.len() as u64);
+                for (s, d) in f {
+                    self.fail(s, d);
+                }
+            }
+            Performative::Detach(d) => {
+                if let Some(c) = self.chans.get_mut(&ch) {
+                    if let Some(l) = c.links.remove(&d.handle.0) {
+                        c.released_handles.insert(d.handle.0);
+                        c.released_names.insert(l.name);
+                    }
+                    c.runs.remove(&d.handle.0);
+                }
+            }
+            Performative::Transfer(t) => {
+                let short = w.short();
+                let ctx = self.ctx.clone();
+                let Some(c) = self.chans.get_mut(&ch) else { return };
+                let mut f = vec![];
+                let run = c.runs.entry(t.handle.0).or_default();
+                run.frames += 1;
+                if run.frames == 1 {
+                    run.first_tag = t.delivery_tag.as_ref().map(|t| t.to_vec());
+                }
+                if let Some(id) = t.delivery_id {
+                    match run.first_id {
+                        None => {
+                            run.first_id = Some(id);
+                            // a new delivery enters the session's sequence
+                            if c.seen.contains(&id) {
+                                f.push(("delivery-id-reused".to_string(), format!("frame #{}: delivery-id {id} on channel {ch} was already used by an earlier delivery of this session ({short})", w.seq)));
+                            } else if let Some(prev) = c.last_id {
+                                if !serial_gt(id, prev) {
+                                    f.push(("delivery-id-not-increasing".to_string(), format!("frame #{}: delivery-id {id} follows {prev} on channel {ch}: not greater in serial-number arithmetic ({short})", w.seq)));
+                                } else if id < prev {
+                                    self.counters.id_wraps += 1;
+                                }
+                            }
+                            c.seen.insert(id);
+                            c.last_id = Some(id);
+                        }
+                        Some(first) if first != id => {
+                            // shape of the offending frame (no magnitudes): does the continuation carry a delivery-tag again?
+                            let shape = match (&t.delivery_tag, &run.first_tag) {
+                                (Some(a), Some(b)) if a.as_slice() == b.as_slice() => "continuation-carries-the-tag-again",
+                                (Some(_), _) => "continuation-carries-another-tag",
+                                (None, _) => "continuation-without-tag",
+                            };
+                            f.push((
+                                format!("delivery-ids-differ-within-delivery [{shape}]"),
+                                format!("frame #{}: frame {} of one delivery on channel {ch} handle {} carries delivery-id {id}, its first frame carried {first} (during a {ctx} send; {short})", w.seq, run.frames, t.handle.0),
+                            ));
+                            // keep the session sequence going from the larger id so that one defect is reported once
+                            c.seen.insert(id);
+                            if c.last_id.is_none_or(|p| serial_gt(id, p)) {
+                                c.last_id = Some(id);
+                            }
+                        }
+                        Some(_) => {}
+                    }
+                }
+                if !t.more {
+                    let run = c.runs.remove(&t.handle.0).unwrap_or_default();
+                    self.counters.deliveries += 1;
+                    if run.frames > 1 {
+                        self.counters.multi_frame_deliveries += 1;
+                        if ctx.contains("link") {
+                            self.counters.link_split_deliveries += 1;
+                        } else if ctx.contains("transport") {
+                            self.counters.transport_split_deliveries += 1;
+                        }
+                    }
+                }
+                for (s, d) in f {
+                    self.fail(s, d);
+                }
+            }
+            _ => {}
+        }
+    }
+}
+
+// --------------------------------------------------------------------------------------------- scenario
+
+enum RLink {
+    S(Sender),
+    R(Receiver),
+}
+struct RealLink {
+    link: RLink,
+    lib_handle: u32,
+    name: u8,
+}
+struct RealSess {
+    h: SessionHandle<()>,
+    chan: u16,
+    links: [Option<RealLink>; MAX_LINKS],
+}
+
+#[derive(Debug, Clone, Default)]
+pub struct Obs {
+    pub executed: usize,
+    /// (signature, detail, index of the event during which it was observed)
+    pub fails: Vec<(String, String, usize)>,
+    pub state_keys: Vec<u64>,
+    pub trace: Vec<String>,
+    /// behaviour of the subject that C11 does not judge (unexpected API errors / calls that stay pending)
+    pub anomalies: Vec<String>,
+    pub counters: Counters,
+    pub machinery: Option<String>,
+}
+
+/// AMQP message with a single amqp-value section holding a string (hand-encoded: the peer does not use the
+/// library's message encoder)
+pub fn encode_string_message(body: &str) -> Vec<u8> {
+    let mut v = vec![0x00, 0x53, 0x77];
+    let b = body.as_bytes();
+    if b.len() < 256 {
+        v.push(0xa1);
+        v.push(b.len() as u8);
+    } else {
+        v.push(0xb1);
+        v.extend_from_slice(&(b.len() as u32).to_be_bytes());
+    }
+    v.extend_from_slice(b);
+    v
+}
+
+pub fn padded_body(tag: &str, len: usize) -> String {
+    let mut s = String::from(tag);
+    while s.len() < len {
+        s.push('.');
+    }
+    s
+}
+
+fn new_lib_frame<'a>(peer: &'a Peer, mark: usize, pred: impl Fn(&Performative) -> bool) -> Option<&'a WFrame> {
+    peer.trace[mark..].iter().find(|w| w.dir == Dirn::FromLib && w.perf().is_some_and(&pred))
+}
+
+const HZ: Duration = Duration::from_millis(40);
+
+/// Err((text, peer_answered)): `peer_answered` = the call failed or stayed pending although the peer's begin (sent
+/// on the PEER's channel, naming the library's channel as remote-channel) is on the wire
+async fn do_begin(peer: &mut Peer, conn: &mut ConnectionHandle<()>, cfg: Cfg) -> Result<(SessionHandle<()>, u16), (String, bool)> {
+    let mark = peer.trace.len();
+    let r = drive(peer, Session::builder().next_outgoing_id(cfg.noi).begin(conn), HZ).await;
+    match r {
+        Some(Ok(h)) => match new_lib_frame(peer, mark, |p| matches!(p, Performative::Begin(_))) {
+            Some(w) => Ok((h, w.channel)),
+            None => Err(("begin returned Ok but no begin frame was written".into(), false)),
+        },
+        other => {
+            let answered = peer.trace[mark..].iter().any(|w| w.dir == Dirn::FromPeer && matches!(w.perf(), Some(Performative::Begin(_))));
+            match other {
+                Some(Err(e)) => Err((format!("begin failed: {e}"), answered)),
+                _ => Err(("begin still pending at the horizon".into(), answered)),
+            }
+        }
+    }
+}
+
+const SIG_BEGIN_LOST: &str = "begin-reply-not-delivered";
+const SIG_ATTACH_LOST: &str = "attach-reply-not-delivered";
+
+pub async fn scenario(cfg: Cfg, evs: Vec<Ev>) -> Obs {
+    let mut obs = Obs::default();
+    let (pipe, a, _b) = Pipe::new();
+    let mut auto = Auto::default();
+    auto.channel_offset = CH_OFF;
+    auto.handle_offset = H_OFF;
+    auto.max_frame_size = MAX_FRAME;
+    auto.channel_max = 2000; // the peer's own channel numbers (1000, 1001) must be <= what both sides announce
+    auto.grant_credit = Some(100);
+    auto.accept_transfers = true;
+    auto.next_outgoing_id = 5000;
+    auto.initial_delivery_count = 77;
+    let mut peer = Peer::new(pipe.clone(), 1, auto);
+    let mut mon = WireMon::default();
+    let opened = drive(&mut peer, Connection::builder().container_id("lib").max_frame_size(MAX_FRAME).channel_max(2000).open_with_stream(a), HZ).await;
+    let mut conn = match opened {
+        Some(Ok(c)) => c,
+        other => {
+            obs.machinery = Some(format!("cannot open the connection: {:?}", other.map(|r| r.map(|_| ()).map_err(|e| e.to_string()))));
+            return obs;
+        }
+    };
+    let mut sess: [Option<RealSess>; MAX_SESS] = [None, None];
+    match do_begin(&mut peer, &mut conn, cfg).await {
+        Ok((h, chan)) => sess[0] = Some(RealSess { h, chan, links: [None, None, None] }),
+        Err((e, answered)) => {
+            if answered {
+                // the peer's begin did not reach the session its remote-channel designates
+                obs.fails.push((SIG_BEGIN_LOST.into(), format!("setup: Session::begin did not succeed ({e}) although the peer answered on its channel {} naming the library's channel: {:?}", CH_OFF, vlib::peer::trace_to_strings(&peer.trace)), usize::MAX));
+                obs.trace = vlib::peer::trace_to_strings(&peer.trace);
+            } else {
+                obs.machinery = Some(format!("cannot begin session 0: {e}"));
+            }
+            return obs;
+        }
+    }
+    settle(&mut peer, 1).await;
+    let mut model = Model::initial();
+    let mut shown = 0usize;
+    let mut msg_seq = 0u32;
+    let flush = |obs: &mut Obs, peer: &Peer, shown: &mut usize| {
+        for w in &peer.trace[*shown..] {
+            obs.trace.push(format!("    {}", w.short()));
+        }
+        *shown = peer.trace.len();
+    };
+    mon.ctx = "setup".into();
+    mon.feed_all(&peer.trace);
+    obs.trace.push(format!("== setup cfg={} open + begin(session 0)", cfg.id));
+    flush(&mut obs, &peer, &mut shown);
+    obs.state_keys.push(h64(&(&model, mon.key())));
+    let mut n_fail_seen = mon.fails.len();
+    for f in mon.fails.iter() {
+        obs.fails.push((f.0.clone(), f.1.clone(), 0));
+    }
+
+    for (i, ev) in evs.iter().copied().enumerate() {
+        if !model.enabled(ev) {
+            break;
+        }
+        let mark = peer.trace.len();
+        let result: String;
+        let mut diverged = false;
+        mon.ctx = match ev {
+            Ev::Send(_, _, Msg::One) => "one-frame".into(),
+            Ev::Send(_, _, Msg::Transport) => "transport-split".into(),
+            Ev::Send(_, _, Msg::Link) => "link-split".into(),
+            _ => "other".into(),
+        };
+        let mut api_fails: Vec<(String, String)> = vec![];
+        match ev {
+            Ev::Begin => match do_begin(&mut peer, &mut conn, cfg).await {
+                Ok((h, chan)) => {
+                    let slot = model.apply(ev).unwrap();
+                    sess[slot] = Some(RealSess { h, chan, links: [None, None, None] });
+                    result = format!("ok slot {slot} channel {chan}");
+                }
+                Err((e, answered)) => {
+                    if answered {
+                        api_fails.push((SIG_BEGIN_LOST.into(), format!("Session::begin did not succeed ({e}) although the peer's begin (on the peer's own channel, remote-channel = the library's channel) is on the wire")));
+                    } else {
+                        obs.anomalies.push(format!("Begin: {e}"));
+                    }
+                    result = e;
+                    diverged = true;
+                }
+            },
+            Ev::End(s) => {
+                let mut rs = sess[s as usize].take().unwrap();
+                model.apply(ev);
+                let r = drive(&mut peer, rs.h.end(), HZ).await;
+                result = match r {
+                    Some(Ok(())) => "ok".into(),
+                    Some(Err(e)) => {
+                        obs.anomalies.push(format!("End: error {e}"));
+                        format!("err {e}")
+                    }
+                    None => {
+                        obs.anomalies.push("End: still pending at the horizon".into());
+                        "pending".into()
+                    }
+                };
+                // the links of the ended session are dropped after the end
+                drop(rs);
+            }
+            Ev::Attach { s, sender, name } => {
+                let dup = model.is_dup(ev);
+                let rs = sess[s as usize].as_mut().unwrap();
+                let nm = link_name(name);
+                let mms = if name == 1 { Some(cfg.mms_b) } else { None };
+                let got: Result<RLink, String> = if sender {
+                    let mut b = Sender::builder().name(nm).target(format!("q-{nm}"));
+                    if let Some(m) = mms {
+                        b = b.max_message_size(m);
+                    }
+                    match drive(&mut peer, b.attach(&mut rs.h), HZ).await {
+                        Some(Ok(x)) => Ok(RLink::S(x)),
+                        Some(Err(e)) => Err(format!("{e:?}")),
+                        None => Err("pending".into()),
+                    }
+                } else {
+                    let mut b = Receiver::builder().name(nm).source(format!("q-{nm}"));
+                    if let Some(m) = mms {
+                        b = b.max_message_size(m);
+                    }
+                    match drive(&mut peer, b.attach(&mut rs.h), HZ).await {
+                        Some(Ok(x)) => Ok(RLink::R(x)),
+                        Some(Err(e)) => Err(format!("{e:?}")),
+                        None => Err("pending".into()),
+                    }
+                };
+                let wire = new_lib_frame(&peer, mark, |p| matches!(p, Performative::Attach(_))).map(|w| match w.perf() {
+                    Some(Performative::Attach(a)) => a.handle.0,
+                    _ => unreachable!(),
+                });
+                match (got, dup) {
+                    (Ok(link), false) => match wire {
+                        Some(h) => {
+                            let slot = model.apply(ev).unwrap();
+                            rs.links[slot] = Some(RealLink { link, lib_handle: h, name });
+                            result = format!("ok slot {slot} handle {h}");
+                        }
+                        None => {
+                            obs.anomalies.push("Attach: returned Ok but no attach frame was written".into());
+                            result = "ok without attach frame".into();
+                            diverged = true;
+                        }
+                    },
+                    (Err(e), true) => {
+                        // refused locally: nothing must have gone on the wire (the wire monitor judges that)
+                        obs.counters.dup_attach_refused += 1;
+                        result = format!("refused: {}", e.chars().take(60).collect::<String>());
+                    }
+                    (Ok(link), true) => {
+                        // the wire monitor reports the second attach; the history cannot be continued in the model
+                        result = "DUPLICATE NAME ACCEPTED".into();
+                        if wire.is_none() {
+                            obs.anomalies.push("Attach with a duplicate name returned Ok without an attach frame".into());
+                        }
+                        drop(link);
+                        diverged = true;
+                    }
+                    (Err(e), false) => {
+                        let answered = peer.trace[mark..].iter().any(|w| w.dir == Dirn::FromPeer && matches!(w.perf(), Some(Performative::Attach(a)) if a.name == nm));
+                        if answered {
+                            // a conforming peer accepted the link: the attach can only fail if the answer did not get to the link
+                            api_fails.push((SIG_ATTACH_LOST.into(), format!("attach of link '{nm}' did not succeed ({}) although the peer's attach (on the peer's channel, with the peer's handle) is on the wire", e.chars().take(80).collect::<String>())));
+                        } else {
+                            obs.anomalies.push(format!("Attach of a free name failed: {e}"));
+                        }
+                        result = format!("err {e}");
+                        diverged = true;
+                    }
+                }
+            }
+            Ev::Detach(s, l) | Ev::Close(s, l) | Ev::Drop(s, l) => {
+                let rl = sess[s as usize].as_mut().unwrap().links[l as usize].take().unwrap();
+                model.apply(ev);
+                let r: Option<Result<(), String>> = match (ev, rl.link) {
+                    (Ev::Detach(..), RLink::S(x)) => drive(&mut peer, x.detach(), HZ).await.map(|r| r.map(|_| ()).map_err(|(_, e)| e.to_string())),
+                    (Ev::Detach(..), RLink::R(x)) => drive(&mut peer, x.detach(), HZ).await.map(|r| r.map(|_| ()).map_err(|(_, e)| e.to_string())),
+                    (Ev::Close(..), RLink::S(x)) => drive(&mut peer, x.close(), HZ).await.map(|r| r.map_err(|e| e.to_string())),
+                    (Ev::Close(..), RLink::R(x)) => drive(&mut peer, x.close(), HZ).await.map(|r| r.map_err(|e| e.to_string())),
+                    (_, x) => {
+                        drop(x);
+                        Some(Ok(()))
+                    }
+                };
+                result = match r {
+                    Some(Ok(())) => "ok".into(),
+                    Some(Err(e)) => {
+                        obs.anomalies.push(format!("{ev:?}: error {e}"));
+                        format!("err {e}")
+                    }
+                    None => {
+                        obs.anomalies.push(format!("{ev:?}: still pending at the horizon"));
+                        "pending".into()
+                    }
+                };
+            }
+            Ev::Send(s, l, m) => {
+                let rl = sess[s as usize].as_mut().unwrap().links[l as usize].as_mut().unwrap();
+                let RLink::S(snd) = &mut rl.link else { unreachable!() };
+                msg_seq += 1;
+                let len = match m {
+                    Msg::One => 24,
+                    Msg::Transport => 1100,
+                    Msg::Link => cfg.mms_b as usize + 100,
+                };
+                let body = padded_body(&format!("lib-msg-{msg_seq}:"), len);
+                let r = drive(&mut peer, snd.send(body), HZ).await;
+                result = match r {
+                    Some(Ok(o)) => format!("outcome {:?}", o).chars().take(40).collect(),
+                    Some(Err(e)) => {
+                        obs.anomalies.push(format!("Send {m:?}: error {e}"));
+                        format!("err {e}")
+                    }
+                    None => {
+                        obs.anomalies.push(format!("Send {m:?}: still pending at the horizon"));
+                        "pending".into()
+                    }
+                };
+            }
+            Ev::PeerXfer(s, l) => {
+                let (chan, lib_handle) = {
+                    let rs = sess[s as usize].as_ref().unwrap();
+                    (rs.chan, rs.links[l as usize].as_ref().unwrap().lib_handle)
+                };
+                // the peer addresses the link by ITS OWN handle and channel
+                let target = peer.links.iter().position(|pl| pl.lib_channel == chan && pl.lib_handle == lib_handle && !pl.detached && pl.credit > 0);
+                match target {
+                    None => {
+                        obs.anomalies.push(format!("PeerXfer: the peer has no attached link with credit for channel {chan} handle {lib_handle}"));
+                        result = "peer has no such link / no credit".into();
+                    }
+                    Some(pi) => {
+                        msg_seq += 1;
+                        let body = padded_body(&format!("peer-msg-{msg_seq}:"), 40);
+                        let payload = encode_string_message(&body);
+                        let our_handle = peer.links[pi].our_handle;
+                        let och = peer.our_channel(chan);
+                        let did = peer.sessions.get(&chan).map(|x| x.next_outgoing_id).unwrap_or(0);
+                        let cut = payload.len() / 2;
+                        let first = Transfer {
+                            handle: Handle(our_handle),
+                            delivery_id: Some(did),
+                            delivery_tag: Some(serde_bytes::ByteBuf::from(format!("pt{msg_seq}").into_bytes())),
+                            message_format: Some(0),
+                            settled: Some(true),
+                            more: true,
+                            rcv_settle_mode: None,
+                            state: None,
+                            resume: false,
+                            aborted: false,
+                            batchable: false,
+                        };
+                        let second = Transfer {
+                            handle: Handle(our_handle),
+                            delivery_id: None,
+                            delivery_tag: None,
+                            message_format: None,
+                            settled: None,
+                            more: false,
+                            rcv_settle_mode: None,
+                            state: None,
+                            resume: false,
+                            aborted: false,
+                            batchable: false,
+                        };
+                        peer.send_perf(och, Performative::Transfer(first), &payload[..cut]);
+                        peer.send_perf(och, Performative::Transfer(second), &payload[cut..]);
+                        peer.links[pi].delivery_count = peer.links[pi].delivery_count.wrapping_add(1);
+                        peer.links[pi].credit -= 1;
+                        settle(&mut peer, 1).await;
+                        // ask every Receiver the harness holds what it has
+                        let mut report = vec![];
+                        for (si, rs) in sess.iter_mut().enumerate() {
+                            let Some(rs) = rs.as_mut() else { continue };
+                            for (li, rl) in rs.links.iter_mut().enumerate() {
+                                let Some(rl) = rl.as_mut() else { continue };
+                                let RLink::R(rcv) = &mut rl.link else { continue };
+                                let designated = si == s as usize && li == l as usize;
+                                let mut got: Vec<String> = vec![];
+                                let mut err = None;
+                                for _ in 0..3 {
+                                    match drive(&mut peer, rcv.recv::<String>(), Duration::from_millis(2)).await {
+                                        Some(Ok(d)) => got.push(d.body().clone()),
+                                        Some(Err(e)) => {
+                                            err = Some(format!("{e:?}"));
+                                            break;
+                                        }
+                                        None => break,
+                                    }
+                                }
+                                let who = format!("receiver '{}' (session slot {si}, channel {}, handle {})", link_name(rl.name), rs.chan, rl.lib_handle);
+                                if designated {
+                                    if got.first() == Some(&body) && got.len() == 1 {
+                                        obs.counters.peer_msgs_routed += 1;
+                                    } else if got.is_empty() {
+                                        api_fails.push((
+                                            "message-not-delivered-to-designated-link".into(),
+                                            format!("the peer sent '{}' on its channel {och} to its handle {our_handle} (= {who}) but recv() there returned {}", body.trim_end_matches('.'), err.clone().map(|e| format!("error {e}")).unwrap_or("nothing".into())),
+                                        ));
+                                    } else if got.iter().filter(|g| **g == body).count() > 1 {
+                                        api_fails.push(("message-delivered-twice".into(), format!("{who} returned the peer's message {} times", got.len())));
+                                    } else {
+                                        api_fails.push(("wrong-message-at-designated-link".into(), format!("{who} returned {:?}, the peer sent '{}'", got, body.trim_end_matches('.'))));
+                                    }
+                                } else if !got.is_empty() {
+                                    api_fails.push((
+                                        "message-delivered-to-wrong-link".into(),
+                                        format!("the peer sent '{}' on its channel {och} to its handle {our_handle} (library channel {chan} handle {lib_handle}) but {who} returned {:?}", body.trim_end_matches('.'), got.iter().map(|g| g.trim_end_matches('.')).collect::<Vec<_>>()),
+                                    ));
+                                } else if let Some(e) = err {
+                                    obs.anomalies.push(format!("PeerXfer: {who} (not addressed) reports {e}"));
+                                }
+                                report.push(format!("{}{}:{}", if designated { "*" } else { "" }, link_name(rl.name), got.len()));
+                            }
+                        }
+                        result = format!("peer channel {och} handle {our_handle} delivery-id {did}; recv counts {report:?}");
+                    }
+                }
+            }
+        }
+        settle(&mut peer, 2).await;
+        mon.feed_all(&peer.trace);
+        obs.trace.push(format!("== event {i}: {ev:?} -> {result}"));
+        flush(&mut obs, &peer, &mut shown);
+        for f in mon.fails[n_fail_seen..].iter() {
+            obs.fails.push((f.0.clone(), f.1.clone(), i));
+        }
+        n_fail_seen = mon.fails.len();
+        for (s, d) in api_fails {
+            obs.fails.push((s, d, i));
+        }
+        if diverged {
+            // the harness cannot continue this history in its model: treat the event as the end of the branch
+            obs.trace.push("   (history abandoned here)".into());
+            break;
+        }
+        obs.executed = i + 1;
+        // canonical observable state: what the harness holds + the identifiers on the wire + classes of failures so far
+        let ids: Vec<Option<(u16, Vec<Option<u32>>)>> = sess.iter().map(|s| s.as_ref().map(|s| (s.chan, s.links.iter().map(|l| l.as_ref().map(|l| l.lib_handle)).collect()))).collect();
+        obs.state_keys.push(h64(&(&model, ids, mon.key(), obs.fails.iter().map(|f| &f.0).collect::<BTreeSet<_>>())));
+    }
+    obs.counters.add(&mon.counters);
+    drop(sess);
+    drop(conn);
+    obs
+}
+
+// ------------------------------------------------------------------------------------------------ driver
+
+pub struct HistRun {
+    pub out: HistOut,
+    pub fails: Vec<(String, String, usize)>,
+    pub anomalies: Vec<String>,
+    pub counters: Counters,
+    pub real: bool,
+}
+
+pub fn run_history(cfg: Cfg, evs: Vec<Ev>) -> HistRun {
+    let mut hr = HistRun { out: HistOut::default(), fails: vec![], anomalies: vec![], counters: Counters::default(), real: false };
+    // enabledness depends only on what the harness holds: a history with a disabled event needs no execution
+    // (its enabled prefix is executed as part of every enabled extension)
+    if let Some(k) = first_disabled(&evs) {
+        hr.out.executed = k;
+        return hr;
+    }
+    hr.real = true;
+    let scen: Scenario<Obs> = {
+        let evs = evs.clone();
+        Arc::new(move || {
+            let evs = evs.clone();
+            Box::pin(scenario(cfg, evs))
+        })
+    };
+    let ex = run_exec(vec![], &RunCfg::none(), &scen);
+    match ex.out {
+        Some(o) => {
+            hr.out.executed = o.executed;
+            hr.out.state_keys = o.state_keys;
+            hr.out.trace = o.trace;
+            hr.out.machinery = o.machinery;
+            hr.fails = o.fails;
+            hr.anomalies = o.anomalies;
+            hr.counters = o.counters;
+        }
+        None => {
+            hr.out.executed = evs.len();
+            hr.out.machinery = Some(if ex.watchdog {
+                format!("C11 {} {:?}: the execution did not finish in real time", cfg.id, evs)
+            } else {
+                format!("C11 {} {:?}: scenario panicked: {:?}", cfg.id, evs, ex.panics)
+            });
+        }
+    }
+    // panics / spinning of library tasks are not what C11 is about: machinery errors, with the history
+    if ex.spun && hr.out.machinery.is_none() {
+        hr.out.machinery = Some(format!("C11 {} {:?}: some task polled more than 20000 times at one virtual instant", cfg.id, evs));
+    }
+    if let Some(p) = ex.panics.iter().find(|p| !p.contains("vcheck/src")) {
+        if hr.out.machinery.is_none() {
+            hr.out.machinery = Some(format!("C11 {} {:?}: a library task panicked: {p}", cfg.id, evs));
+        }
+    }
+    hr
+}
+
+#[derive(Default)]
+struct Totals {
+    executions: u64,
+    events: u64,
+    states: HashSet<u64>,
+    transitions: HashSet<(u64, usize, u64)>,
+    counters: Counters,
+    anomalies: BTreeMap<String, (u64, Vec<String>)>,
+    /// (signature, truncated history) already reported
+    reported: HashSet<(String, Vec<usize>)>,
+    violations: Vec<(String, String, serde_json::Value, usize)>,
+    samples: Vec<serde_json::Value>,
+}
+
+fn anomaly_class(a: &str) -> String {
+    // class = text up to the first digit run / quote, enough to group
+    a.split(|c: char| c.is_ascii_digit() || c == '\'' || c == '"').next().unwrap_or(a).trim().chars().take(80).collect()
+}
+
+pub fn run(ctx: &Ctx) -> Outcome {
     let mut out = Outcome::new("model_checking");
-    out.machinery_errors.push("check C11 is not built yet".into());
+    if let Some(p) = &ctx.replay {
+        return replay(p, out);
+    }
+    let al = alphabet();
+    let t0 = Instant::now();
+    let deadline = t0 + Duration::from_secs_f64(ctx.budget_s * 0.9);
+    let full: Vec<usize> = (0..al.len()).collect();
+    // "deep" slice: links only on session slot 0, names a and b, two link slots; the second session slot can
+    // still be begun and ended (channel allocation) - smaller branching, one level deeper
+    let deep: Vec<usize> = (0..al.len())
+        .filter(|i| match al[*i] {
+            Ev::Begin | Ev::End(_) => true,
+            Ev::Attach { s, name, .. } => s == 0 && name < 2,
+            Ev::Detach(s, l) | Ev::Close(s, l) | Ev::Drop(s, l) | Ev::Send(s, l, _) | Ev::PeerXfer(s, l) => s == 0 && l < 2,
+        })
+        .collect();
+    // depth counted AFTER the setup (open + begin of session 0), i.e. the design's depth + 1
+    let plan: Vec<(Cfg, usize, &str, &Vec<usize>)> = if ctx.quick() {
+        vec![(CFGS[0], 4, "full", &full), (CFGS[1], 4, "deep", &deep), (CFGS[2], 4, "deep", &deep)]
+    } else {
+        vec![(CFGS[0], 5, "full", &full), (CFGS[1], 5, "deep", &deep), (CFGS[2], 5, "deep", &deep), (CFGS[0], 6, "deep", &deep), (CFGS[1], 6, "deep", &deep), (CFGS[2], 6, "deep", &deep)]
+    };
+    // Part B first (scripted client against the real listener): it gets at most a quarter of the budget
+    let lb = listener::run_part_b(ctx, (t0 + Duration::from_secs_f64(ctx.budget_s * 0.25)).min(deadline), &mut out);
+    let totals = Mutex::new(Totals::default());
+    let mut completed: Vec<String> = vec![];
+    let mut truncated = false;
+    let mut pruned = 0u64;
+    for (cfg, depth, label, sub) in &plan {
+        if Instant::now() > deadline {
+            truncated = true;
+            break;
+        }
+        let t_plan = Instant::now();
+        let st = search(sub.len(), *depth, ctx.threads, deadline, |hs| {
+            // indices into the full alphabet
+            let h: Vec<usize> = hs.iter().map(|i| sub[*i]).collect();
+            let evs: Vec<Ev> = h.iter().map(|i| al[*i]).collect();
+            let hr = run_history(*cfg, evs.clone());
+            if hr.real {
+                let mut t = totals.lock().unwrap();
+                t.executions += 1;
+                t.events += hr.out.executed as u64;
+                for k in &hr.out.state_keys {
+                    t.states.insert(*k);
+                }
+                for (j, w) in hr.out.state_keys.windows(2).enumerate() {
+                    t.transitions.insert((w[0], h[j], w[1]));
+                }
+                t.counters.add(&hr.counters);
+                for a in &hr.anomalies {
+                    let e = t.anomalies.entry(format!("cfg {}: {}", cfg.id, anomaly_class(a))).or_insert((0, vec![]));
+                    e.0 += 1;
+                    if e.1.is_empty() {
+                        e.1.push(format!("{} {:?}: {a}", cfg.id, evs));
+                    }
+                }
+                for (sig, detail, at) in &hr.fails {
+                    let hist: Vec<usize> = if *at == usize::MAX { vec![] } else { h[..=(*at).min(h.len() - 1)].to_vec() };
+                    if t.reported.insert((format!("{}/{sig}", cfg.id), hist.clone())) {
+                        let names: Vec<String> = hist.iter().map(|i| format!("{:?}", al[*i])).collect();
+                        t.violations.push((
+                            sig.clone(),
+                            format!("cfg {} (next-outgoing-id {}, max-message-size of 'b' links {}), history after open+begin: {:?}: {detail}", cfg.id, cfg.noi, cfg.mms_b, names),
+                            json!({"part": "A", "cfg": cfg.id, "events": hist, "event_names": names, "trace": hr.out.trace}),
+                            hist.len(),
+                        ));
+                    }
+                }
+                // samples: one history with a multi-frame delivery, one with a routed peer message, one with identifier reuse
+                let want = match t.samples.len() {
+                    0 => hr.counters.multi_frame_deliveries > 0,
+                    1 => hr.counters.peer_msgs_routed > 0 && hr.counters.two_sessions > 0,
+                    2 => hr.counters.handle_reuses + hr.counters.channel_reuses > 0 && hr.counters.deliveries > 0,
+                    _ => false,
+                };
+                if want && hr.out.executed == h.len() {
+                    let names: Vec<String> = evs.iter().map(|e| format!("{e:?}")).collect();
+                    t.samples.push(json!({"cfg": cfg.id, "history": names, "trace": hr.out.trace}));
+                }
+            }
+            // fails are accounted for above (with the history truncated to the failing event)
+            hr.out
+        });
+        pruned += st.pruned_disabled;
+        for m in st.machinery {
+            if out.machinery_errors.len() < 5 {
+                out.machinery_errors.push(m);
+            }
+        }
+        let what = format!("cfg {} alphabet {label}({} events) depth {depth} [{} histories executed, {:.0} s]", cfg.id, sub.len(), st.executions - st.pruned_disabled, t_plan.elapsed().as_secs_f64());
+        if st.truncated {
+            truncated = true;
+            completed.push(format!("{what}: CUT by the budget"));
+            break;
+        }
+        completed.push(what);
+    }
+    let mut t = totals.into_inner().unwrap();
+    // shortest history first so that the replay kept per signature is minimal
+    t.violations.sort_by_key(|v| v.3);
+    for (sig, detail, rep, _) in t.violations {
+        out.violation(sig, detail, rep);
+    }
+    out.set("states", (t.states.len() as u64 + lb.states).max(1));
+    out.set("transitions", t.transitions.len() as u64 + lb.transitions);
+    out.set("traces_validated_against_impl", t.executions + lb.executions);
+    out.set("executions", t.executions + lb.executions);
+    out.set("events_executed", t.events + lb.events);
+    out.set("histories_pruned_disabled_event", pruned);
+    out.set("client_part", json!({"executions": t.executions, "events": t.events, "states": t.states.len(), "transitions": t.transitions.len(), "completed": completed, "nontrivial": t.counters.to_json()}));
+    if t.counters.id_wraps == 0 {
+        out.set(
+            "delivery_id_wraparound_note",
+            "cfg 'wrap' (next-outgoing-id = u32::MAX - 1) did NOT reach a wrap-around in this run: after the peer's first link flow the library recomputes remote-incoming-window as next-incoming-id + incoming-window - next-outgoing-id with SATURATING arithmetic (session/mod.rs on_incoming_flow_inner), which leaves a window of u32::MAX - next-outgoing-id transfers, so the transfer with id u32::MAX is never sent and later sends stay pending (see unjudged_api_anomalies). That is session flow control (C07), not an identifier error; once it is repaired this configuration exercises ids MAX-1, MAX, 0, 1 at depth 4",
+        );
+    }
+    out.set("listener_part", lb.summary.clone());
+    let mut samples = t.samples;
+    samples.extend(lb.samples.iter().cloned());
+    out.set("samples", json!(samples));
+    out.set("exhaustive", !truncated && !lb.truncated);
+    out.set(
+        "bound",
+        format!(
+            "client vs scripted peer: open + begin(session 0), then ALL histories of the stated depth over {} events (begin; end(s); attach(s, sender|receiver, name a|b|c; 'b' links have a max-message-size); detach|close|drop(s,l); send one-frame|transport-split|link-split (s,l); peer transfer to (s,l)) with <= {MAX_SESS} sessions x <= {MAX_LINKS} links, completed: {:?} (alphabet 'deep' = links on session slot 0 only, names a|b, two link slots); listener vs scripted client: {}",
+            al.len(),
+            completed,
+            lb.bound
+        ),
+    );
+    out.set(
+        "rule",
+        "states = distinct canonical observable states at quiescence (which sessions/links the application holds, the channel and handle numbers seen on the wire, attached names, last delivery-id and open multi-frame deliveries per session, classes of failures so far); transitions = distinct (state, event, state) triples; every state is reached by executing the real stack. A history with a disabled event is not executed (its enabled prefix is executed as part of every enabled extension)",
+    );
+    let an: Vec<serde_json::Value> = t.anomalies.iter().map(|(k, (n, ex))| json!({"class": k, "count": n, "example": ex.first()})).collect();
+    out.set("unjudged_api_anomalies", json!(an));
+    out.assume("the scripted peer acts at quiescent points only: every library step runs to quiescence before the next event (history search, default schedule)");
+    out.assume("'the previous holder has detached/ended' is read as: the library's own detach/end frame for that holder is on the wire (the peer's answer is not required)");
+    out.assume("API calls that fail or stay pending without an identifier being wrong are outside C11: counted in unjudged_api_anomalies, not verdicts");
+    out
+}
+
+fn replay(p: &std::path::Path, mut out: Outcome) -> Outcome {
+    let s = std::fs::read_to_string(p).unwrap_or_default();
+    let j: serde_json::Value = serde_json::from_str(&s).unwrap_or_default();
+    let r = if j.get("replay").is_some() { &j["replay"] } else { &j };
+    if r["part"] == "B" {
+        return listener::replay(r, out);
+    }
+    let cfg = CFGS.iter().copied().find(|c| r["cfg"] == c.id).unwrap_or(CFGS[0]);
+    let al = alphabet();
+    let idx: Vec<usize> = r["events"].as_array().map(|a| a.iter().filter_map(|x| x.as_u64()).map(|i| i as usize).filter(|i| *i < al.len()).collect()).unwrap_or_default();
+    let evs: Vec<Ev> = idx.iter().map(|i| al[*i]).collect();
+    println!("replaying part A cfg {} history {:?}", cfg.id, evs);
+    let hr = run_history(cfg, evs);
+    for l in &hr.out.trace {
+        println!("  {l}");
+    }
+    for a in &hr.anomalies {
+        println!("  (unjudged) {a}");
+    }
+    if let Some(m) = hr.out.machinery {
+        out.machinery_errors.push(m);
+    }
+    let mut seen = BTreeSet::new();
+    for (s, d, at) in hr.fails {
+        println!("  FAIL at event {at} [{s}]: {d}");
+        if seen.insert(s.clone()) {
+            out.violation(s, d, r.clone());
+        }
+    }
+    out.set("states", hr.out.state_keys.len().max(1));
+    out.set("transitions", hr.out.executed.max(1));
+    out.set("traces_validated_against_impl", 1);
+    out.set("samples", json!([r["event_names"]]));
+    out.set("exhaustive", true);
+    out.set("bound", "replay of one history");
+    out.set("rule", "replay");
     out
 }
